@@ -27,7 +27,7 @@ PROPS = {
         "trusted_base": [INTERP_MODELLED],
     },
     "C10": {
-        "rule": SCRIPTS_RULE + "profile: every second new variable has a meta()/balance()/overdraft() origin; directed templates unboundedThenBounded and worldBalance (a non-zero balance of @world on the ledger, read through balance()/overdraft() after another origin made the store answer); each script is executed against the four store behaviours {static (bundled StaticStore), exact, sparse (omits absent and zero), superset (whole content)} with all calls logged; every observation must equal the outcome of the sheet semantics (Spec/SheetRun.run_sheet, evaluated in Coq from the ledger alone). Non-trivial: at least one store call is made; distinct by hash.",
+        "rule": SCRIPTS_RULE + "profile: every second new variable has a meta()/balance()/overdraft() origin; directed templates unboundedThenBounded and worldBalance (a non-zero balance of @world on the ledger, read through balance()/overdraft() after another origin made the store answer); each script is executed against the five store behaviours {static (bundled StaticStore), exact, sparse (omits absent and zero), superset (whole content), poison (requested cells at their value, every other cell at a wrong value)} with all calls logged; every observation must equal the outcome of the sheet semantics (Spec/SheetRun.run_sheet, evaluated in Coq from the ledger alone). Non-trivial: at least one store call is made; distinct by hash.",
         "assumptions": ["'faithful' (Spec/SheetRun.v): a store answers every balance query with at least the requested cells at their ledger value (absent or zero cells may be omitted, anything may be added) and every metadata query with the ledger's text; the four behaviours of the harness are proved faithful (C10_store_kinds_faithful)",
                         "the sheet semantics reads cells that are never requested (incl. every balance of @world) as 0"],
         "trusted_base": [INTERP_MODELLED],
